@@ -211,6 +211,34 @@ def check_intgen_fresh(n: int) -> bool:
     return True
 
 
+def check_swap(k: int, a1: int, a2: int, b1: int, b2: int, b3: int) -> bool:
+    """
+    pre: 0 <= k <= 2 and 0 < a1 < a2 < b1 < b2 < b3
+    post: POST(_)
+    """
+    # "every defaulted unique id comes from the metamodel's generator": after the metamodel's generator is
+    # replaced, classes defined before AND after the replacement draw from the new one
+    global LAST_DIFF
+    k = cs(k, 0, 2)
+    ga, gb = LoggingGen([a1, a2]), LoggingGen([b1, b2, b3])
+    m = xtuml.MetaModel(ga)
+    m.define_class('Q', [('Id', 'unique_id'), ('n', 'integer')])
+    first = [m.new('Q').Id for _ in range(k)]
+    m.id_generator = gb
+    m.define_class('R', [('Id', 'unique_id')])
+    try:
+        q, r, q2 = m.new('Q'), m.new('R'), m.new('Q', n=5)
+    except IndexError:
+        case('swap', k)
+        LAST_DIFF = ('an id was drawn from the REPLACED generator (exhausted)', ga.out, gb.out); return False
+    case('swap', k)
+    if first != [a1, a2][:k] or ga.out != [a1, a2][:k]:
+        LAST_DIFF = ('ids before the replacement', first, ga.out); return False
+    if [q.Id, r.Id, q2.Id] != [b1, b2, b3] or gb.out != [b1, b2, b3]:
+        LAST_DIFF = ('ids after the generator was replaced do not come from the metamodel\'s generator', [q.Id, r.Id, q2.Id], gb.out); return False
+    return True
+
+
 def check_uuidgen(v1: int, v2: int, v3: int, ops: int) -> bool:
     """
     pre: 0 <= v1 < 2 ** 128 and 0 <= v2 < 2 ** 128 and 0 <= v3 < 2 ** 128
